@@ -105,7 +105,7 @@ static Params generic_base(const std::vector<std::string>& names, int seed) {
 
 struct Ctx {
   const System* sys; Params base; std::vector<LD> dflt; std::vector<std::vector<LD>> alpha; std::vector<Pt> pts;
-  std::vector<Assignment> as; int level_end[4]; size_t zero_pairs = 0, nstructured = 0, relation_pairs = 0, family_sets = 0; std::vector<std::vector<int>> families; std::vector<int> family_full; std::vector<std::vector<Dev>> structured; std::vector<std::string> namesB;
+  std::vector<Assignment> as; int level_end[4]; size_t zero_pairs = 0, nstructured = 0, relation_pairs = 0, family_sets = 0, default_ball = 0; std::vector<std::vector<int>> families; std::vector<int> family_full; std::vector<std::vector<Dev>> structured; std::vector<std::string> namesB;
 };
 
 static std::string fmt_params(const Params& P) {
@@ -194,6 +194,10 @@ struct Runner {
       if (!(lib == lib) || std::isinf((LD)lib)) { bad = true; why = "non-finite"; ratio = 1e300; }
       else {
         errq = qabs(lq - e.ref.v); Q sc = (Q)u * e.ref.s;
+        // gradual underflow: below the normal range of the scalar type a correctly rounded result is off by up to half the smallest
+        // subnormal (an exact value of 1e-892 is 0 in double); that absolute floor belongs to the scalar type, not to the library
+        Q uflow = sizeof(S) == sizeof(double) ? (Q)std::numeric_limits<double>::denorm_min() : (Q)std::numeric_limits<long double>::denorm_min();
+        if (errq <= uflow) errq = 0; else if (qabs(e.ref.v) < (sizeof(S) == sizeof(double) ? (Q)std::numeric_limits<double>::min() : (Q)std::numeric_limits<long double>::min())) errq -= uflow;
         ratio = (sc > 0) ? (double)(errq / sc) : (errq == 0 ? 0.0 : 1e300);
         if (!e.alt_id.empty()) {
           Q ea = qabs(lq - e.alt.v); Q sa = (Q)u * (e.alt.s > e.ref.s ? e.alt.s : e.ref.s);
@@ -311,6 +315,7 @@ static void boundary_points(const System& sys, const Params& P, const std::vecto
   for (int j = 0; j < 3; j++) { has[j] = false; if (!used[j]) continue; if (P.has(per[j])) { len[j] = P.m.at(per[j]); has[j] = true; } else if (P.has("L")) { len[j] = P.m.at("L"); has[j] = true; } if (has[j]) nlen++; }
   { int first = -1, nused = 0; for (int j = 0; j < 4; j++) if (used[j]) { if (first < 0) first = j; nused++; }
     if (nused > 1 && sys.singular_axis < 0) { Pt dg = *b; for (int j = 0; j < 4; j++) if (used[j]) dg.c[j] = b->c[first]; out.push_back(dg); } }  // the diagonal x = y = z = t (bit-identical coordinates)
+  { Pt f2 = *b; const LD far2[4] = {29.125L, -21.625L, -36.375L, 24.875L}; for (int j = 0; j < 4; j++) f2.c[j] = used[j] ? far2[j] : b->c[j]; out.push_back(f2); }  // many periods away, |t| > 2 pi, mixed signs
   if (nlen == 0) return;
   Pt corner = *b; corner.variant = b->variant;
   for (int j = 0; j < 3; j++) if (has[j]) { Pt q = *b; q.c[j] = len[j]; out.push_back(q); if (j != sys.singular_axis) { Pt z = *b; z.c[j] = 0; out.push_back(z); } corner.c[j] = len[j]; }
@@ -423,6 +428,16 @@ static void build_ctx(Ctx& C, const System& sys, int tier) {
       }
     }
   }
+  // default-centred ball: the library's own defaults (round numbers, integer wave numbers, zeros) with at most one parameter moved to its
+  // generic base value -- guards that test a property of the default values (integer-valued, equal, zero) see their "normal" case here,
+  // while one parameter breaks the pattern.  Frozen parameters keep their base value (derive() runs afterwards).
+  if (!g_red && !sys.base_from_default && !sys.no_default_ball) {
+    std::vector<Dev> dv0; for (int i = 0; i < n; i++) if (std::find(sys.frozen.begin(), sys.frozen.end(), names[i]) == sys.frozen.end()) { LD v = C.dflt[i]; if (sys.allow && !sys.allow(names[i], v)) v = C.base.m[names[i]]; dv0.push_back({i, v}); }
+    for (int k = -1; k < (int)dv0.size(); k++) {
+      std::vector<Dev> dv = dv0; if (k >= 0) { if (dv[k].v == C.base.m[names[dv[k].p]]) continue; dv[k].v = C.base.m[names[dv[k].p]]; }
+      Assignment a; a.nd = 3; a.structured = C.structured.size(); C.structured.push_back(dv); C.as.push_back(a); C.default_ball++;
+    }
+  }
   if (sys.structured && !g_red) {
     for (auto& set : sys.structured(names)) {
       std::vector<Dev> dv; for (auto& kv : set) { auto it = std::find(names.begin(), names.end(), kv.first); if (it == names.end()) { fprintf(stderr, "E1 HARNESS ERROR: structured assignment names unknown parameter %s\n", kv.first.c_str()); exit(2); } dv.push_back({(int)(it - names.begin()), kv.second}); }
@@ -473,7 +488,7 @@ static int run_system(const System& sys0, int tier, FILE* out, double t_end) {
   for (size_t i = 0; i < C.alpha.size(); i++) nalpha += C.alpha[i].size();
   (void)first; (void)al;
   std::string famdesc; for (size_t f = 0; f < C.families.size(); f++) { famdesc += (f ? "; " : "") + std::string(C.family_full[f] ? "all subsets of {" : "complements of <=2(3) of {"); for (int i : C.families[f]) famdesc += C.base.names[i] + " "; famdesc += "}"; }
-  fprintf(out, "{\"k\":\"system\",\"system\":\"%s\",\"prop\":\"%s\",\"nparams\":%zu,\"alphabet\":%ld,\"points\":%zu,\"assignments\":%zu,\"level_end\":[%d,%d,%d,%d],\"zero_pairs\":%zu,\"relation_pairs\":%zu,\"structured\":%zu,\"family_sets\":%zu,\"families\":\"%s\",\"base\":%s}\n", sys.name.c_str(), sys.prop.c_str(), C.base.names.size(), nalpha, C.pts.size(), C.as.size(), C.level_end[0], C.level_end[1], C.level_end[2], C.level_end[3], C.zero_pairs, C.relation_pairs, C.nstructured, C.family_sets, famdesc.c_str(), fmt_params(C.base).c_str());
+  fprintf(out, "{\"k\":\"system\",\"system\":\"%s\",\"prop\":\"%s\",\"nparams\":%zu,\"alphabet\":%ld,\"points\":%zu,\"assignments\":%zu,\"level_end\":[%d,%d,%d,%d],\"zero_pairs\":%zu,\"relation_pairs\":%zu,\"structured\":%zu,\"family_sets\":%zu,\"default_ball\":%zu,\"families\":\"%s\",\"base\":%s}\n", sys.name.c_str(), sys.prop.c_str(), C.base.names.size(), nalpha, C.pts.size(), C.as.size(), C.level_end[0], C.level_end[1], C.level_end[2], C.level_end[3], C.zero_pairs, C.relation_pairs, C.nstructured, C.family_sets, C.default_ball, famdesc.c_str(), fmt_params(C.base).c_str());
   return rc;
 }
 
